@@ -109,9 +109,6 @@ def _serialize_region_fits(region):
     # translate region class to FITS shape name
     shape = region_clsname.lower().replace('pixelregion', '')
 
-    if region.meta.get('include', None) == 0:
-        shape = f'!{shape}'
-
     region_map = {'circleannulus': 'annulus',
                   'ellipseannulus': 'elliptannulus',
                   'rectangle': 'rotbox'}
@@ -137,6 +134,11 @@ def _serialize_region_fits(region):
         shape_params = 0
     if rotang is None:
         rotang = u.Quantity(0, 'deg')
+
+    # an excluded region is marked by a leading "!" on the (translated)
+    # FITS shape name
+    if region.meta.get('include', None) == 0:
+        shape = f'!{shape}'
 
     component = region.meta.get('component', None)
 
